@@ -133,7 +133,8 @@ RESUME = {
     'raises': {},
     'callsites': {
         # one thread per layer, created in layer order, wired to the result of the same index
-        'threading.Thread': ["_kw_args[0] == result", "_kw_args[4] == layer_name", "_kw_args[5] == layer",
+        'threading.Thread': ["layer_name == old(layers)[_i][0]", "layer == old(layers)[_i][1]",     # in the order handed over
+                             "_kw_args[0] == result", "_kw_args[4] == layer_name", "_kw_args[5] == layer",
                              "_kw_args[9] == resume_number",
                              "resume_number == ite(options.processes > 1, 1, 0) + _i"],
         # at most N children alive: a thread is started only into a free slot, and only once
